@@ -27,6 +27,7 @@ func runC15(w *World, r *Report) {
 	ruleC15KeyInjective(w, r)
 	ruleKeyComponentsVerbatim(w, r, "C15-R11")
 	c15TombstoneExact(w, r)
+	c15CatalogTables(w, r, "C15-R13")
 
 	fn := w.Func(pkgReader, "EtcdOp", "GetAllDroppedObj")
 	if fn == nil {
@@ -587,4 +588,81 @@ func c15TombstoneExact(w *World, r *Report) {
 		}
 	})
 	r.Check(bad == "" && eq, "C15-R12", "util.IsTombstone | whole-value comparison", f.Pos(), "bytes.Equal with the marker", "IsTombstone decides with "+bad+" (or without an equality test): a live database / collection record whose serialised value happens to end in (contain) the marker bytes is treated as dropped, gets a drop horizon in the snapshot and its operations are skipped")
+}
+
+// c15CatalogTables (C15-R13, shared with C13): the id->database table is filled from the catalog KEY of a collection
+// record (…/<db id>/<collection id>): records written before the database feature carry no db_id in their value, the key
+// always does. And getDatabases reads the catalog on every call: a remembered listing makes a database created since
+// look dropped.
+func c15CatalogTables(w *World, r *Report, rule string) {
+	r.Rule(rule, "catalog tables are filled from the authoritative source, read fresh", "the value stored into EtcdOp.collectionID2DBID can derive from getDatabaseIDFromCollectionKey(key) (or from the listed database whose prefix the key was found under) at every store; every successful return of getDatabases is dominated by the etcd read", 2)
+	n := 0
+	for _, fn := range w.RepoFuncs() {
+		if fn.Pkg == nil || fn.Pkg.Pkg.Path() != pkgReader {
+			continue
+		}
+		eachInstr(fn, func(in ssa.Instruction) {
+			c, ok := in.(*ssa.Call)
+			if !ok || callSym(c.Common()).name != "Store" {
+				return
+			}
+			rv := callRecv(c.Common())
+			if rv == nil || !strings.HasSuffix(w.accessPath(rv), ".collectionID2DBID") {
+				return
+			}
+			n++
+			args := callArgs(c.Common())
+			fromKey := false
+			if len(args) == 2 {
+				for _, x := range backSlice(args[1], SliceOpts{MaxDepth: 8}) {
+					if cc, isC := x.(*ssa.Call); isC && callSym(cc.Common()).name == "getDatabaseIDFromCollectionKey" {
+						fromKey = true
+					}
+					// the id of the listed database under whose prefix the record's key was found
+					if strings.HasSuffix(w.accessPath(x), ".ID") && strings.Contains(x.Type().String(), "int64") {
+						if fa, isFA := x.(*ssa.FieldAddr); isFA && bareTypeName(fa.X.Type()) == "DatabaseInfo" {
+							fromKey = true
+						}
+						if fl, isF := x.(*ssa.Field); isF && bareTypeName(fl.X.Type()) == "DatabaseInfo" {
+							fromKey = true
+						}
+					}
+				}
+			}
+			r.Check(fromKey, rule, fmt.Sprintf("%s | collectionID2DBID.Store #%d", shortFn2(fn), n), c.Pos(), "the database id comes from the record's key", "the database id stored for a collection does not come from the catalog key on any path: a record without db_id in its value (written before the database feature) is mapped to no database, the snapshot takes it for 'database dropped' and gives its dropped collections / partitions no entry")
+		})
+	}
+	if gd := w.Func(pkgReader, "EtcdOp", "getDatabases"); gd != nil {
+		var reads []ssa.Instruction
+		eachInstr(gd, func(in ssa.Instruction) {
+			if c, ok := in.(*ssa.Call); ok {
+				if nm := callSym(c.Common()).name; nm == "EtcdGetWithContext" || (c.Common().IsInvoke() && c.Common().Method.Name() == "Get") {
+					reads = append(reads, c)
+				}
+			}
+		})
+		k := 0
+		eachInstr(gd, func(in ssa.Instruction) {
+			ret, ok := in.(*ssa.Return)
+			if !ok || len(ret.Results) != 2 || !isNilConst(returnedValue(ret, 1)) {
+				return
+			}
+			k++
+			dom := false
+			for _, rd := range reads {
+				if instrDominates(rd, ret) {
+					dom = true
+				}
+			}
+			r.Check(dom, rule, fmt.Sprintf("(*EtcdOp).getDatabases | successful return #%d follows the catalog read", k), ret.Pos(), "read on every call", "getDatabases can answer from a remembered listing: a collection created in a database younger than the remembered listing resolves to 'database dropped' and its event is lost for good")
+		})
+		if k == 0 {
+			r.Undecided(rule, "(*EtcdOp).getDatabases", gd.Pos(), "no successful return found")
+		}
+	} else {
+		r.Undecided(rule, "(*EtcdOp).getDatabases", 0, "anchor not found")
+	}
+	if n == 0 {
+		r.Undecided(rule, "collectionID2DBID", 0, "no store found")
+	}
 }
